@@ -324,7 +324,10 @@ func (e *c09env) runFaulted(s session, plan netfx.Plan, kase *c09case) (f failur
 		} else {
 			mc = cl.(mpx.Client)
 		}
-		if conn, st := mc.Conn(async.TimeoutContext(faultBound)); st.OK() {
+		if conn, st := mc.Conn(async.TimeoutContext(faultBound)); st.OK() && px.Accepted.Load() == 1 {
+			// only the first accepted connection carries the fault plan: if the client has
+			// already reconnected, this object is a healthy replacement and must not be
+			// expected to close
 			o.conns = append(o.conns, conn)
 		}
 		s.run(e, cl, o)
